@@ -44,11 +44,13 @@ ParseBlocks(F, p, sync, acc) ==
                                      Append(acc, [off |-> p - 1, size |-> q + SyncSize - p, count |-> NToNat(c.x.mag),
                                                   payload |-> SubSeq(F, s.p, q - 1)]))
 
-\* table: sequence of [c |-> compressed bytes, d |-> plain bytes]
+\* table: sequence of [c |-> compressed bytes, d |-> plain bytes, ok |-> the standard-library decompressor of the header's codec accepted c]
 Inflate(codec, payload, table) ==
   IF codec = N_nullcodec THEN [ok |-> TRUE, d |-> payload]
   ELSE LET hits == { i \in 1..Len(table) : table[i].c = payload } IN
-       IF hits = {} THEN [ok |-> FALSE] ELSE [ok |-> TRUE, d |-> table[CHOOSE i \in hits : TRUE].d]
+       IF hits = {} THEN [ok |-> FALSE, why |-> "H.inflate"]
+       ELSE LET e == table[CHOOSE i \in hits : TRUE] IN
+            IF e.ok THEN [ok |-> TRUE, d |-> e.d] ELSE [ok |-> FALSE, why |-> "codec"]
 
 MetaText(meta, key) == Utf8Dec(ValAt(meta, key).by)
 
@@ -66,7 +68,7 @@ ParseFile(F, hs, table) ==
           ELSE IF ~bl.ok THEN FBad(bl.why)
           ELSE LET dec == MapSeq(LAMBDA b :
                               LET inf == Inflate(codec, b.payload, table) IN
-                              IF ~inf.ok THEN [ok |-> FALSE, why |-> "H.inflate"]
+                              IF ~inf.ok THEN [ok |-> FALSE, why |-> inf.why]
                               ELSE LET r == DecItems(P.t, b.count, inf.d, 1, P.st.names, <<>>) IN
                                    IF r.st # "ok" \/ r.p # Len(inf.d) + 1 THEN [ok |-> FALSE, why |-> "payload"]
                                    ELSE [ok |-> TRUE, off |-> b.off, size |-> b.size, count |-> b.count, recs |-> r.v],
